@@ -55,10 +55,13 @@ def make_psms(rows, feature_order=("key", "f2", "f3")):
                             feature_columns=list(feature_order), copy_data=True)
 
 
+FDR_NOW = [TRAIN_FDR]  # the training FDR of the model whose log is being judged
+
+
 def accepted(keys, scores, label, desc=True):
     lab = [label[k] for k in keys]
     q = ref_qvalues(list(scores), lab, desc)
-    return {k for k, (a, b), l in zip(keys, q, lab) if l and a / b <= TRAIN_FDR}
+    return {k for k, (a, b), l in zip(keys, q, lab) if l and a / b <= FDR_NOW[0]}
 
 
 def check_logs(rows, log, add, kind):
@@ -259,6 +262,31 @@ def extras_case(case, acc):
                                     dict(case, extras=True), expected=pred, observed=got))
     finally:
         shutil.rmtree(work, ignore_errors=True)
+    # ONE dataset object used to fit two models with different training FDRs: the second model's start labels must be
+    # the targets accepted at ITS training FDR
+    if case["kind"] == "linear":
+        psms_shared = make_psms(rows0)
+        try:
+            make_model("linear", first_only=False, max_iter=1, shuffle=False, rng=1, train_fdr=0.5).fit(psms_shared)
+            m2 = make_model("linear", first_only=False, max_iter=1, shuffle=False, rng=1, train_fdr=0.26)
+            try:
+                m2.fit(psms_shared)
+            except RuntimeError:
+                pass  # "performs worse" is judged elsewhere; here only the start labels (first fit call) matter
+            first_fit = [e for e in m2.estimator.log_ if e[0] == "fit"][:1]
+            if not first_fit:
+                raise RuntimeError("no fit call")
+            FDR_NOW[0] = 0.26
+            sigs2 = []
+            check_logs(rows0, first_fit, lambda sig, msg, **kw: sigs2.append((sig, msg)), "linear")
+            acc.count("shared_dataset_second_fits")
+            for sig, msg in sigs2[:1]:
+                acc.violation(Violation("second-model-on-same-dataset:" + sig, "a second model (train_fdr 0.26) fitted on a dataset "
+                                        f"object that already served a model with train_fdr 0.5: {msg}", dict(case, extras=True)))
+        except (RuntimeError, ValueError):
+            acc.count("shared_dataset_second_fit_refused")
+        finally:
+            FDR_NOW[0] = TRAIN_FDR
     # The SAME Model object fitted again on the same PSMs with the feature columns in another order: what the model
     # predicts for its training rows must be what its estimator returned for those rows in the last training iteration
     # (features are matched by name, also after a second fit).  A re-fit starts from the trained model, so it is NOT
